@@ -280,8 +280,11 @@ def match_known(known, prop, v):
 
 
 def _slug(s):
+    import hashlib
+
+    h = hashlib.blake2b(s.encode("utf-8", "surrogatepass"), digest_size=3).hexdigest()
     s = re.sub(r"[^A-Za-z0-9_.-]+", "_", s)[:80].strip("_")
-    return s or "case"
+    return (s or "case") + "." + h
 
 
 _TEST_TMPL = '''"""Stand-alone replay of a violation of property {prop} ({sig}).
@@ -443,8 +446,7 @@ def run(prop, tier, seed):
         v = clusters[sig][1]
         # determinism: re-execute from the recorded case before reporting
         again = check_one(mod, v["sub"], json.loads(json.dumps(jsonable(v["case"]))) if getattr(mod, "JSON_CASES", True) else v["case"])
-        if not _same_failure(again, v):
-            raise HarnessError("replay divergence for %s: first %r then %r" % (sig, v, again))
+        diverged = not _same_failure(again, v)
         k = match_known(known, prop, v)
         path = write_replay(prop, v, tier, "enumeration")
         if k is not None:
@@ -453,6 +455,11 @@ def run(prop, tier, seed):
         else:
             n_viol += 1
             lines.append("VIOLATION property=%s replay=%s" % (prop, path))
+            if diverged:
+                # the exploration observed the violation; re-executing the recorded (minimised) case did not show the
+                # same failure. Reported all the same (everything is deterministic, so this points at the replay path
+                # of the check, not at the verdict), but flagged so that it gets looked at.
+                lines.append("  HARNESS-WARNING replay of the recorded case diverged: %r" % (again,))
             lines.append("  signature=%s case=%s expected=%s observed=%s" % (
                 sig, jdump(jsonable(v["case"]))[:300], jdump(jsonable(v.get("expected")))[:200],
                 jdump(jsonable(v.get("observed")))[:200]))
